@@ -18,7 +18,10 @@ type procGen struct {
 
 func newProcGen(r *gen.Rng) *procGen { return &procGen{r: r} }
 
-var procStrs = []string{"", "0", "7", "12", "abc", "+3", " 4", "a", "b", "true", "-2"}
+// boundary strings for the string->number coercion ("decimal parse or 0"): canonical decimals, signs,
+// blanks, and spellings that other parsers accept but a decimal parse must not (leading zeros are
+// decimal, not octal; no base prefixes, digit separators, exponents, fractions)
+var procStrs = []string{"", "0", "7", "12", "abc", "+3", " 4", "a", "b", "true", "-2", "010", "-012", "0x1F", "1_000", "0b11", "1e3", "3.5", "7 ", "+", "99999999999999999999"}
 var procNums = []int{0, 1, 2, -1, 7, 12}
 var binOps = []string{"+", "-", "*", "/", "%", "<", ">", "<=", ">=", "==", "!=", "and", "or"}
 var unOps = []string{"not", "head", "tail"}
